@@ -143,20 +143,38 @@ package ext
 //@   requires sameArray(ov, ob) && off(ov) == off(ob) && len(ov) <= len(ob) && len(ob) <= cap(ob)
 //@   modifies bytes(ov)
 //@   top-ensures len(nv) <= len(ov) && sameArray(nv, ov) && off(nv) == off(ov)
+//@   ensures (off(nb) - off(ob) == len(ob) && forall(k, len(ov), len(ob), old(ob[k]) != '\n')) || (len(ov) < off(nb) - off(ob) && off(nb) - off(ob) <= len(ob) && old(ob[off(nb) - off(ob) - 1]) == '\n' && forall(k, len(ov), off(nb) - off(ob) - 1, old(ob[k]) != '\n'))
 //@   top-ensures nhl == headerLength && sameArray(nb, ob) && off(nb) >= off(ob) + len(ov) && off(nb) + len(nb) == off(ob) + len(ob)
 //@   loop 0:
 //@     invariant 0 <= write && write <= read && read <= length && length == len(ov) && sameArray(nv, ov) && off(nv) == off(ov) && len(nv) == len(ov)
 //@     invariant capOnly(mkslice(arr(ov), off(ov), len(ov)))
 //@   loop 1:
-//@     invariant length <= next && next <= len(ob)
+//@     invariant length <= next && next <= len(ob) && forall(k, length, next, ob[k] != '\n')
 
 // HeaderScanner.Next: the scanner only ever moves forward inside one buffer. The new window is a suffix
 // of the old one in the same place (same array, same end), and memory changes only in the prefix that
 // was consumed by this step (key case normalisation, value compaction).
+// Representation invariant of the scanner between two calls of Next: the cached positions of the next colon
+// and line feed (found while looking for a folded continuation line) lie inside the window and the cached
+// line feed really is one; consumed plus remaining length is bounded (so no index arithmetic wraps).
+//@ macro hsRep(s) = s.initialized ==> s.nextNewLine >= -1 - s.HLen && (s.nextColon < 0 ==> s.nextNewLine < 0) && (s.nextColon >= 0 ==> s.nextNewLine >= 0 && s.nextColon + 1 + s.nextNewLine < len(s.B) && s.B[s.nextColon + 1 + s.nextNewLine] == '\n')
+//@ macro hsInv(s) = 0 <= s.HLen && s.HLen + len(s.B) <= 281474976710656 && hsRep(s)
+//@ macro hsCached(s) = s.initialized && s.nextColon >= 0
 //@ func HeaderScanner.Next(s) r
-//@   props C02
-//@   nosafety
-//@   requires 0 <= s.HLen && s.HLen <= 281474976710656
+//@   props C02, C03
+//@   requires hsInv(s)
 //@   modifies s._all, mem
-//@   top-ensures sameArray(s.B, old(s.B)) && off(s.B) >= off(old(s.B)) && off(s.B) + len(s.B) == off(old(s.B)) + len(old(s.B))
-//@   top-ensures changedOnly(arr(old(s.B)), off(old(s.B)), off(s.B))
+//@   ensures r ==> hsInv(s)
+//@   ensures s.HLen + len(s.B) == old(s.HLen + len(s.B))
+//@   unreachable-return 6 :: the length check after the continuation-line loop is defensive: n is the index of a line feed inside the window on every path into it
+//@   assert after normalizeHeaderValue#0: off(result1) == off(s.B) && len(result1) == len(s.B)
+//@   top-ensures @C02 sameArray(s.B, old(s.B)) && off(s.B) >= off(old(s.B)) && off(s.B) + len(s.B) == off(old(s.B)) + len(old(s.B))
+//@   top-ensures @C02 changedOnly(arr(old(s.B)), off(old(s.B)), off(s.B))
+//@   loop 0:
+//@     invariant 0 <= n && n <= len(s.B) && len(s.Key) + 1 <= n
+//@     invariant old(hsCached(s)) ==> s.nextNewLine >= 0 && n + s.nextNewLine == old(s.nextColon) + 1 + old(s.nextNewLine) && s.B[n + s.nextNewLine] == '\n'
+//@     invariant !old(hsCached(s)) ==> s.nextNewLine < 0 && s.nextNewLine >= -1 - s.HLen - (n - len(s.Key) - 1)
+//@   loop 1:
+//@     invariant 0 <= n && n < len(s.B) && s.nextColon < 0 && s.nextNewLine < 0 && s.nextNewLine >= -1 - s.HLen && s.B[n] == '\n'
+//@   loop 2:
+//@     invariant 0 <= n && n <= len(s.Value) && forall(k, n, len(s.Value), s.Value[k] != '\n')
